@@ -420,3 +420,39 @@ Theorem C15_facts_excview_forward_clear :
   add_exception_view_forwards = true /\ clear_mode_registry = Swap /\ clear_mode_fallback = Swap.
 Proof. exact facts_excview_forward_clear. Qed.
 Print Assumptions C15_facts_excview_forward_clear.
+
+(* ---- proof-only round ---- *)
+Require Import Verif.Proofs.C15_safe.
+
+(* the positive counterpart of C15_reinit_interleaved_refuted: for EVERY init program whose last instruction is
+   the cache clear (whatever precedes it), split at ANY point, with ANY trace of lookups and registrations
+   running at the split point, after ANY history that ends idle with an empty current cache: once every thread
+   has finished, every lookup that starts is fresh *)
+Theorem C15_reinit_interleaved_safe_order : forall body m sro R0 hs pre post trm k tr2,
+  reinit_idle sro KeyFull lookup_prog register_prog init_prog hs (init R0) = true ->
+  let stH := hexec sro KeyFull lookup_prog register_prog init_prog hs (init R0) in
+  idleb stH = true -> heap stH (cur stH) = [] ->
+  pre ++ post = body ++ [IClear m] ->
+  let st0 := reinit pre stH in
+  let st1 := reinit post (exec sro KeyFull lookup_prog register_prog trm st0) in
+  idleb st1 = true ->
+  let st2 := exec sro KeyFull lookup_prog register_prog (SpawnLookup k :: tr2) st1 in
+  reg_free sro KeyFull lookup_prog register_prog st1 (SpawnLookup k :: tr2) = true ->
+  exists t, threads st2 (ntid st1) = Some t /\ tkind t = KLookup /\ tkey t = k /\
+            (cont t = [] -> tres t = Some (lookup_all sro (R st1) k)).
+Proof. exact reinit_interleaved_safe_order. Qed.
+Print Assumptions C15_reinit_interleaved_safe_order.
+
+(* composition of C15_reinit_forgets and C15_partial_commit_fresh, without a quietness hypothesis: after any
+   history the registry is re-initialised and a commit fails midway -- later lookups see exactly the executed
+   view actions on an EMPTY registry *)
+Theorem C15_reinit_then_commit_fresh : forall sro R0 hs acts k tr2,
+  reinit_idle sro KeyFull lookup_prog register_prog init_prog (hs ++ [HReinit]) (init R0) = true ->
+  let st0 := hexec sro KeyFull lookup_prog register_prog init_prog (hs ++ [HReinit]) (init R0) in
+  let st1 := exec sro KeyFull lookup_prog register_prog (commit_trace (ntid st0) acts) st0 in
+  let st2 := exec sro KeyFull lookup_prog register_prog (SpawnLookup k :: tr2) st1 in
+  reg_free sro KeyFull lookup_prog register_prog st1 (SpawnLookup k :: tr2) = true ->
+  exists t, threads st2 (ntid st1) = Some t /\ tkind t = KLookup /\ tkey t = k /\
+            (cont t = [] -> tres t = Some (lookup_all sro (commit_R acts []) k)).
+Proof. exact reinit_then_commit_fresh. Qed.
+Print Assumptions C15_reinit_then_commit_fresh.
